@@ -9,6 +9,7 @@ import (
 	"strings"
 	"sync"
 	"sync/atomic"
+	"unicode"
 
 	"github.com/miekg/dns"
 	"github.com/prometheus/client_golang/prometheus"
@@ -341,6 +342,15 @@ func (b *BlockList) RemoveBatch(keys []string) int {
 // Returns false if the key is whitelisted (caller should not save).
 func (b *BlockList) setLocked(key string) bool {
 	key = dns.CanonicalName(key)
+
+	// The list is persisted as a line-oriented file in which white space
+	// separates hosts-file fields and '#' starts a comment. A key carrying
+	// either cannot be written and read back as the same entry: it would
+	// reload as a different name that was never listed ("a#b.test." as
+	// "a.", "two words.test." as "words.test."). Refuse it.
+	if strings.ContainsRune(key, '#') || strings.IndexFunc(key, unicode.IsSpace) >= 0 {
+		return false
+	}
 
 	// Refuse to add a block the whitelist would shadow. Exists matches the
 	// whitelist across the hierarchy, so this must too — otherwise adding
